@@ -139,6 +139,9 @@ func sharesRoot(a, b map[ssa.Value]bool) bool {
 
 func runC15(c *Ctx) {
 	p := c.Progs["mod"]
+	c.Rule("C15.Y", "compatibility with the party that is not changed with this code: no websocket extension or subprotocol is offered; --force-http2 decides the pass-through transport", 2)
+	ruleBridgeHandshakeVocabulary(c, p, "C15.Y")
+	ruleFlagDecidesH2C(c, p, "C15.Y", "utils/tcpbridge/tcp-bridge-backend.main", "forceHTTP2", "backend:force-http2-decides-the-transport")
 	c.Rule("C15.E", "hex/text codec agreement and buffer discipline of WebsocketNetConn; sockets are closed orderly (= C16.A)", 10)
 	ruleNoAbortiveLinger(c, p, "C15.E")
 	c.Rule("C15.P", "two copy directions over the same pair, WaitGroup pairing", 4)
@@ -195,10 +198,31 @@ func runC15(c *Ctx) {
 			if inPlace {
 				src = PArgs(CallOf(dec))[1]
 			}
-			if cv, ok := src.(*ssa.Convert); ok {
-				src = cv.X
+			// conversions, the parameter of a new decoding helper, and trimming of characters that are
+			// not hex digits (a line terminator a line-oriented peer appends) leave the payload's digits as they are
+			for k := 0; k < 6; k++ {
+				if cv, ok := src.(*ssa.Convert); ok {
+					src = cv.X
+					continue
+				}
+				if pl := Peel(src); pl != src {
+					src = pl
+					continue
+				}
+				if call, ok := src.(*ssa.Call); ok {
+					switch CalleeName(&call.Call) {
+					case "bytes.TrimSpace", "strings.TrimSpace":
+						src = call.Call.Args[0]
+						continue
+					case "bytes.Trim", "bytes.TrimRight", "bytes.TrimLeft", "strings.Trim", "strings.TrimRight", "strings.TrimLeft":
+						if cs, isC := ConstString(call.Call.Args[1]); isC && !strings.ContainsAny(cs, "0123456789abcdefABCDEF") {
+							src = call.Call.Args[0]
+							continue
+						}
+					}
+				}
+				break
 			}
-			src = Peel(src) // through the parameter of a new decoding helper
 			if e, ok := src.(*ssa.Extract); ok && e.Tuple == rm.(ssa.Value) && e.Index == 1 {
 				okSrc = true
 			}
